@@ -79,6 +79,22 @@ def shape_term(rng, name, lo, hi, exact, classes=None):
     raise AssertionError(cls)
 
 
+def hedge_chain(rng, exact, n, allow_sqrt=True):
+    """hedges of one proposition; in the general family at most one square-root hedge (somewhat / seldom) per chain and none
+    on output-variable propositions: sqrt near 0 amplifies a 1e-16 rounding error to 1e-8, two of them to 1e-4"""
+    if exact:
+        return [rng.choice(EXACT_HEDGES[:3]) for _ in range(n)]
+    hs, used = [], not allow_sqrt
+    for _ in range(n):
+        h = rng.choice(ALL_HEDGES[:5])
+        if h in ("somewhat", "seldom"):
+            if used:
+                h = rng.choice(EXACT_HEDGES[:3])
+            used = True
+        hs.append(h)
+    return hs
+
+
 def gen_ante(rng, invars, outvars_avail, depth, exact):
     """returns nested antecedent: ["prop", var, hedges, term|None] | ["and"/"or", l, r]"""
     if depth > 0 and rng.random() < 0.55:
@@ -86,7 +102,7 @@ def gen_ante(rng, invars, outvars_avail, depth, exact):
                 gen_ante(rng, invars, outvars_avail, depth - 1, exact)]
     pool = invars + (outvars_avail if rng.random() < 0.35 else [])
     v = rng.choice(pool)
-    hs = [rng.choice(EXACT_HEDGES[:3] if exact else ALL_HEDGES[:5]) for _ in range(rng.choice([0, 0, 0, 1, 1, 2, 3]))]
+    hs = hedge_chain(rng, exact, rng.choice([0, 0, 0, 1, 1, 2, 3]), allow_sqrt="lock_previous" not in v)
     if rng.random() < 0.07:
         return ["prop", v["name"], hs + ["any"], None]
     return ["prop", v["name"], hs, rng.choice(v["terms"])["name"]]
@@ -177,7 +193,7 @@ def gen_engine(rng, exact=None, activation="general", n_in=None, batch_ok=False,
             concls = []
             for _ in range(rng.choice([1, 1, 2])):
                 ov = rng.choice(outputs)
-                hs = [rng.choice(EXACT_HEDGES[:3] if exact else ALL_HEDGES[:5]) for _ in range(rng.choice([0, 0, 0, 1, 2]))]
+                hs = hedge_chain(rng, exact, rng.choice([0, 0, 0, 1, 2]))
                 concls.append({"var": ov["name"], "hedges": hs, "term": rng.choice(ov["terms"])["name"]})
             w = rng.choice([1.0, 1.0, 0.5, 0.25, 0.75])
             rules.append({"enabled": rng.random() < 0.9, "weight": w, "ante": ante, "concls": concls,
